@@ -5,6 +5,7 @@
   `quoteSplit` itself is the mirror of `ford.utils.quote_split` in Basic/Split.lean.
 -/
 import FordModel.Basic.Split
+import FordModel.Reader
 import FordModel.CallsTable
 namespace Ford.Calls
 open Ford
@@ -21,5 +22,27 @@ def recordedLines (logical : List Str) : List Chain := recorded (unitStatements 
 
 def recordedOfLines (lines : List String) : List (List String) :=
   (recordedLines (lines.map String.toList)).map (fun c => c.map String.ofList)
+
+/-! ### continued lines (round 5)
+
+  From the *physical* lines of a unit body to its statements: the reader of ford/reader.py
+  (`FortranReader.__next__`: comment removal, `&` continuation - a leading `&` on the next line
+  resumes the statement right behind it, its absence joins with one blank; the text in front of a
+  trailing `&`, blanks included, belongs to the statement - then `quote_split(";", .)`).  The
+  model is `Ford.readAll` of `Reader.lean` (shared with C02) with the default doc marks; doc
+  comments (`!!...`, delivered by the reader as items of their own) are not statements. -/
+
+/-- the statements the reader delivers for the physical lines `phys` (doc-comment items dropped);
+    `[]` when the reader raises -/
+def physStatements (phys : List Str) : List Str :=
+  match readAll Marks.default phys with
+  | .ok items => items.filter (fun s => s.head? != some '!')
+  | .error _ => []
+
+/-- the recorded call chains of a unit whose body consists of the physical lines `phys` -/
+def recordedPhysical (phys : List Str) : List Chain := recorded (physStatements phys)
+
+def recordedOfPhysical (lines : List String) : List (List String) :=
+  (recordedPhysical (lines.map String.toList)).map (fun c => c.map String.ofList)
 
 end Ford.Calls
